@@ -195,6 +195,7 @@ structure E2E where
   sub : Sub := {}
   queue : List Block := []
   emitted : Array Submission := #[]
+  completed : Nat := 0                        -- submissions whose completion the loop processed
   sizes : List (String × Nat) := []          -- metadata digest ↦ stand-alone compressed size
   -- ghost state from the implementation's reports
   sent : List Block := []
@@ -406,14 +407,18 @@ def run (lines : Array String) : Driver.Report := Id.run do
       if ¬ e.active then r := r.addDisagree n line "no-session" else
       let q := ((field args "queued").getD "0").toNat!
       let k := ((field args "broadcasts").getD "0").toNat!
-      let mtext := if e.queue.length = q ∧ e.emitted.size = k then "ok"
-        else s!"model: queued={e.queue.length} broadcasts={e.emitted.size}"
+      let c := ((field args "completed").getD "0").toNat!
+      let mtext := if e.queue.length = q ∧ e.emitted.size = k ∧ e.completed = c then "ok"
+        else s!"model: queued={e.queue.length} broadcasts={e.emitted.size} completed={e.completed}"
       r := r.check n line impl mtext
       r := r.bump "e2e_wait"
     | ["batch", "e2e-confirm"] =>
       if ¬ e.active then r := r.addDisagree n line "no-session" else
-      let (s', _) := e.sub.step (cfgE2E e) .done
-      e := settle { e with sub := s' }
+      let (s', out) := e.sub.step (cfgE2E e) .done
+      let c := match out with
+        | .completed => e.completed + 1
+        | _ => e.completed
+      e := settle { e with sub := s', completed := c }
       r := r.check n line impl "ok"
       r := r.bump "e2e_confirm"
     | ["batch", "e2e-finish"] =>
